@@ -267,7 +267,10 @@ def suite_real_mp(ctx):
         lons = np.array([ctx.rng.uniform(-180, 180) for _ in range(n)])
         lats = np.array([ctx.rng.uniform(-85, 85) for _ in range(n)])
         inp = {"n": n, "nprocs": nprocs, "chunk": chunk, "schedule": kind}
-        proj_def = {"proj": "laea", "lat_0": 10, "lon_0": 20, "ellps": "WGS84"}
+        proj_def = [{"proj": "laea", "lat_0": 10, "lon_0": 20, "ellps": "WGS84"},
+                    {"proj": "longlat", "pm": 180, "datum": "WGS84"},          # non-Greenwich prime meridian
+                    {"proj": "eqc", "lon_0": 0, "pm": -30, "ellps": "WGS84"}][r % 3]
+        inp["proj"] = str(proj_def)
         try:
             x, y = Proj_MP(**proj_def)(lons, lats, nprocs=nprocs, chunk=chunk, schedule=kind)
             crs = pyproj.CRS.from_user_input(proj_def)
